@@ -24,7 +24,9 @@ DEFAULT_PROFILE = dict(
     max_iter_choices=(None, None, None, 1, 2, 3, 5),
     tol_mesh_choices=(None, None, 1e-6, 1e-3, 0.1, 0.6),
     spellings=("a1", "a1", "a2", "list", "tuple"),
-    out_spellings=("float", "float", "np", "arr1", "arr11"),
+    # ("np32" = np.float32 is offered separately: merged records are then computed in single precision (NEP 50), which the
+    # exact-value oracles of C05/C12 would have to model; C04 and C09 use it)
+    out_spellings=("float", "float", "np", "arr1", "arr11", "arr0"),
     specified_spellings=("both",),  # "alone" = {specify_target_noise: True} only
     final_samples=(0, 1, 2, 5, 10),
     p_seed_none=0.1,
@@ -356,6 +358,10 @@ def scenario(draw, p=None):
     tgt = dict(kind=kind, c=cz, scale=scale, offset=draw(st.sampled_from([0.0, 0.0, -3.5, 1000.0])),
                callable=draw(st.sampled_from(list(p.get("callable_kinds", ("function", "function", "function", "object", "method"))))),
                z=zs, out=draw(st.sampled_from(p["out_spellings"])), ccls=ccls)
+    if chance(draw, p.get("p_mutating_target", 0.06)):
+        # a target that works in place on the array it is handed (x -= centre; return sum(x**2)): what it was called with
+        # must still be what is logged
+        tgt["mutates"] = True
     if kind == "quad":
         tgt["A"] = draw(rotation_spd(D))
     if kind == "linear":
@@ -530,6 +536,8 @@ def simplifications(s):
             yield "l1 target", mod(simple_t)
     if tg.get("scale", 1.0) != 1.0 or tg.get("offset", 0.0) != 0.0:
         yield "unit scale", mod(lambda t: t["target"].update(scale=1.0, offset=0.0))
+    if tg.get("mutates"):
+        yield "non-mutating target", mod(lambda t: t["target"].pop("mutates"))
     if tg.get("out") != "float":
         yield "float output", mod(lambda t: t["target"].update(out="float"))
     if s.get("spelling") != "a1":
